@@ -204,6 +204,26 @@ def slot_order(tree, cls, pull_attr):
     return "true" if min(req) < min(pull) else "false"
 
 
+def combiner_recipe_loop(tree, what):
+    """Combiner.behaviour: `for edge_idx in range(<start>, len(self.in_edges)): qty = self.target_quantity_of_each_item[<index>]`
+    -> the start of the range / the index expression as a function of edge_idx"""
+    fn = find(tree, "Combiner", "behaviour")
+    for n in ast.walk(fn):
+        if isinstance(n, ast.For) and isinstance(n.target, ast.Name) and isinstance(n.iter, ast.Call) \
+                and getattr(n.iter.func, "id", None) == "range" and len(n.iter.args) == 2 \
+                and ast.unparse(n.iter.args[1]) == "len(self.in_edges)":
+            var = n.target.id
+            subs = [m for m in ast.walk(n) if isinstance(m, ast.Subscript) and ast.unparse(m.value) == "self.target_quantity_of_each_item"]
+            if len(subs) != 1:
+                continue
+            if what == "start":
+                return Tr().z(n.iter.args[0])
+            return Tr(env={var: "edge_idx"}).z(subs[0].slice)
+    raise Unsupported("no `for <v> in range(_, len(self.in_edges))` reading target_quantity_of_each_item[...] in Combiner.behaviour")
+
+
+frag("Combiner_first_ingredient_edge", "nodes/combiner.py", lambda t: combiner_recipe_loop(t, "start"), "1", kind="constZ")
+frag("Combiner_recipe_index", "nodes/combiner.py", lambda t: combiner_recipe_loop(t, "index"), "edge_idx", kind="idx")
 frag("Machine_slot_before_reserve", "nodes/machine.py", lambda t: slot_order(t, "Machine", "reserve_get"), "true", kind="const")
 frag("Combiner_slot_before_reserve", "nodes/combiner.py", lambda t: slot_order(t, "Combiner", "reserve_get"), "true", kind="const")
 frag("Splitter_slot_before_get", "nodes/splitter.py", lambda t: slot_order(t, "Splitter", "get"), "true", kind="const")
@@ -404,6 +424,10 @@ def main():
             status, why, text = "fallback", "%s: %s" % (type(ex).__name__, ex), fr["fallback"]
         if fr["kind"] == "rr":
             out.append("Definition %s (i n_edges : Z) : Z := %s." % (fr["name"], text))
+        elif fr["kind"] == "constZ":
+            out.append("Definition %s : Z := %s." % (fr["name"], text))
+        elif fr["kind"] == "idx":
+            out.append("Definition %s (edge_idx : Z) : Z := %s." % (fr["name"], text))
         elif fr["kind"] == "const":
             out.append("Definition %s : bool := %s." % (fr["name"], text))
         elif fr["kind"] == "pb":
